@@ -49,9 +49,11 @@ type state struct {
 	n     int
 	in    int
 	maxIn int
+	obj   rt.Obj // the counter is shared state: accesses are recorded in the happens-before relation
 }
 
 func (s *state) enter() {
+	s.touch()
 	s.in++
 	if s.in > s.maxIn {
 		s.maxIn = s.in
@@ -59,6 +61,17 @@ func (s *state) enter() {
 	if s.in > s.n {
 		s.x.Fail("inCS<=n", "", "%d goroutines hold a token of a limiter of size %d", s.in, s.n)
 	}
+}
+
+func (s *state) touch() {
+	if r := rt.Cur(); r != nil {
+		r.TouchHB("counter", &s.obj)
+	}
+}
+
+func (s *state) dec() {
+	s.touch()
+	s.in--
 }
 
 // ctx modes
@@ -80,7 +93,7 @@ func runScript(s *state, base context.Context, mode int, script string) {
 		cancel()
 		ctx = c
 	case ctxCancelledLater:
-		c, cancel := context.WithCancel(base)
+		c, cancel := rt.WithCancel(base)
 		ctx = c
 		rt.Go(func() { cancel() })
 	case ctxNoLimiter:
@@ -102,7 +115,7 @@ func runScript(s *state, base context.Context, mode int, script string) {
 	}
 	leave := func() {
 		if holding && counted {
-			s.in--
+			s.dec()
 		}
 		holding = false
 	}
@@ -112,7 +125,7 @@ func runScript(s *state, base context.Context, mode int, script string) {
 			rt.Yield()
 		case opTy:
 			if holding && counted {
-				s.in--
+				s.dec()
 			}
 			concurrencylimiter.TemporarilyRelease(hctx, func() { rt.Yield() })
 			if holding && counted {
@@ -120,7 +133,7 @@ func runScript(s *state, base context.Context, mode int, script string) {
 			}
 		case opTn:
 			if holding && counted {
-				s.in--
+				s.dec()
 			}
 			concurrencylimiter.TemporarilyRelease(hctx, func() {
 				concurrencylimiter.TemporarilyRelease(hctx, func() { rt.Yield() })
